@@ -770,6 +770,33 @@ fn cases(tier: Tier) -> Vec<Case> {
     out
 }
 
+/// Programs whose first action lies 4095..5000 operator levels below the root (child process).
+pub fn deep_family() -> Acc {
+    let fa = framed_actions();
+    let pa = plain_actions();
+    let unterminated = Action::Printf(vec![Fmt::Field(Field::SizeBytes), Fmt::Lit(" ".into()), Fmt::Field(Field::NameNoStart)]);
+    let mut deep_cases = vec![];
+    for deep in [4095usize, 4096, 4097, 5000] {
+        for first in [unterminated.clone(), fa[0].clone(), fa[1].clone()] {
+            deep_cases.push(Case { items: vec![first, pa[0].clone()], threads: 2, shuttle: false, prefix: 0, guarded: false, deep, comma: false });
+        }
+        deep_cases.push(Case { items: vec![pa[0].clone(), pa[1].clone()], threads: 2, shuttle: false, prefix: 0, guarded: false, deep, comma: false });
+    }
+    let n = deep_cases.len();
+    speclib::trees::on_big_stack(move || {
+        let mut a = Acc::new();
+        for c in &deep_cases {
+            check(c, &mut a);
+        }
+        a
+    })
+    .unwrap_or_else(|| {
+        let mut a = Acc::new();
+        a.violate(Violation::new("C16:engine-crashed", format!("{n} programs whose first action lies 4095..5000 operator levels deep"), json!({"kind": "c16-deep"})));
+        a
+    })
+}
+
 pub fn run(ctx: &Ctx) -> i32 {
     let cs = cases(ctx.tier);
     // each case runs on its own worker thread (shuttle keeps its execution state thread-local)
@@ -789,31 +816,9 @@ pub fn run(ctx: &Ctx) -> i32 {
     });
     let acc = acc.merge(negated_programs());
     // the first action far below the root (4095..5000 operator levels), the others near it:
-    // the choice between plain and framed output must still see it (model only, big stack)
-    let mut acc = acc;
-    {
-        let fa = framed_actions();
-        let pa = plain_actions();
-        let unterminated = Action::Printf(vec![Fmt::Field(Field::SizeBytes), Fmt::Lit(" ".into()), Fmt::Field(Field::NameNoStart)]);
-        let mut deep_cases = vec![];
-        for deep in [4095usize, 4096, 4097, 5000] {
-            for first in [unterminated.clone(), fa[0].clone(), fa[1].clone()] {
-                deep_cases.push(Case { items: vec![first, pa[0].clone()], threads: 2, shuttle: false, prefix: 0, guarded: false, deep, comma: false });
-            }
-            deep_cases.push(Case { items: vec![pa[0].clone(), pa[1].clone()], threads: 2, shuttle: false, prefix: 0, guarded: false, deep, comma: false });
-        }
-        let n = deep_cases.len();
-        match speclib::trees::on_big_stack(move || {
-            let mut a = Acc::new();
-            for c in &deep_cases {
-                check(c, &mut a);
-            }
-            a
-        }) {
-            Some(a) => acc = acc.merge(a),
-            None => acc.violate(Violation::new("C16:engine-crashed", format!("{n} programs whose first action lies 4095..5000 operator levels deep"), json!({"kind": "c16-deep"}))),
-        }
-    }
+    // the choice between plain and framed output must still see it (model only; in a child
+    // process under a memory limit, see props::run_isolated)
+    let acc = acc.merge(crate::props::run_isolated("C16", "deep", "programs whose first action lies 4095..5000 operator levels deep"));
     let mut extra = serde_json::Map::new();
     extra.insert("programs_x_thread_counts".into(), json!(cs.len()));
     extra.insert("cases_replayed_under_shuttle".into(), json!(cs.iter().filter(|c| c.shuttle).count()));
